@@ -98,9 +98,13 @@ DEFOP(bulk_string) {
     NEED_FREE_SLOT();
     int n = (int)(st.A(0) % 14); Rng r((uint64_t)st.A(1));
     std::vector<std::string> v; for (int i = 0; i < n; i++) v.push_back(gen_string(r, false, false, 8));
-    std::vector<const char *> p; for (auto &s : v) p.push_back(s.c_str());
+    // a caller's table may name the same text more than once (the same pointer): every element still owns its own copy
+    std::vector<const char *> p;
+    std::vector<size_t> src;
+    for (size_t i = 0; i < v.size(); i++) { size_t from = (i > 0 && r.chance(1, 4)) ? src[i - 1] : i; src.push_back(from); p.push_back(v[from].c_str()); }
     const char *dummy = "";
-    MVal *m = mv_new(T_ARRAY); for (auto &s : v) { MVal *k = mv_str(s); mv_add_kid(m, k, m->kids.size()); }
+    MVal *m = mv_new(T_ARRAY); for (size_t i = 0; i < v.size(); i++) { MVal *k = mv_str(v[src[i]]); mv_add_kid(m, k, m->kids.size()); }
+    { bool rep = false; for (size_t i = 1; i < src.size(); i++) if (src[i] == src[i - 1]) rep = true; if (rep) w.stats.probes["string_array_names_a_text_twice"]++; }
     put_root(w, st, slot, cJSON_CreateStringArray(n ? p.data() : &dummy, n), m, "CreateStringArray");
 }
 
@@ -539,7 +543,9 @@ DEFOP(dup) {
     MVal *x = w.pick(st.A(0), st.A(1), [&](MVal *) { return true; });
     if (!x) { w.noop(st, "no node"); return; }
     bool recurse = st.A(2) & 1;
-    cJSON *r = cJSON_Duplicate(x->c, recurse);
+    // cJSON_bool is an int: every non-zero value asks for a recursive duplicate
+    static const int truthy[] = {1, 1, 2, -1, 4, 255};
+    cJSON *r = cJSON_Duplicate(x->c, recurse ? truthy[((uint64_t)st.A(2) / 2) % 6] : 0);
     if (w.tolerate_failure(r == nullptr)) return;
     if (!r) { w.mismatch("return", "Duplicate returned NULL for " + mv_dump(x, 60)); return; }
     MVal *m = mv_clone_value(x);
